@@ -164,7 +164,10 @@ def classify(run, side, unit_file):
         elif kind == "assertion":
             c = clause_at(pline) if pline else None
             ob["label"] = "assert"
-        if not ob.get("core") and (ob.get("label") in (None, "assert", "std-trait-postcondition") or str(ob.get("label")).startswith("~")) and ob.get("fn"):
+        dflt = (side.get("default_core") or {}).get(ob.get("fn"))
+        if not ob.get("core") and dflt and (ob.get("label") in (None, "assert", "std-trait-postcondition") or str(ob.get("label")).startswith("~")):
+            ob["core"] = list(dflt)          # declared with `@default core=` in the contract file: not demoted
+        elif not ob.get("core") and (ob.get("label") in (None, "assert", "std-trait-postcondition") or str(ob.get("label")).startswith("~")) and ob.get("fn"):
             # an unlabelled invariant / proof assertion / operator postcondition inside function F: F's contract is not
             # established, so the failure counts against every property one of F's clauses is core for
             u = set()
